@@ -148,6 +148,25 @@ func specC10(tier string, variant int) *SeqSpec {
 	return s
 }
 
+// ---- C15 (part 2): HELLO switches the protocol of exactly one connection -----------------------------
+
+func specC15hello(tier string) *SeqSpec {
+	s := &SeqSpec{ID: "C15#hello", Sessions: 2, Keys: []string{"kh"}, DBs: []int{0}}
+	s.Inits = [][]Op{{c("HSET", "kh", "f", "1", "g", "x")}}
+	for sess := 0; sess < 2; sess++ {
+		for _, a := range [][]string{{"HELLO"}, {"HELLO", "2"}, {"HELLO", "3"}, {"HELLO", "4"}, {"HELLO", "1"}, {"HELLO", "0"}, {"HELLO", "x"}, {"HELLO", "3", "SETNAME", "nm"}, {"HELLO", "2", "BOGUS"}} {
+			s.Alphabet = append(s.Alphabet, Op{Sess: sess, Args: a})
+		}
+	}
+	// after every step both connections are probed with a command whose wire form differs
+	s.Probes = []Op{cs(0, "HGETALL", "kh"), cs(1, "HGETALL", "kh"), cs(0, "CLIENT", "GETNAME"), cs(1, "CLIENT", "GETNAME")}
+	s.Depth = 3
+	if tier == "thorough" {
+		s.Depth = 4
+	}
+	return s
+}
+
 // ---- C14: databases and session state ------------------------------------------------------------------
 
 func specC14(tier string) *SeqSpec {
